@@ -81,7 +81,7 @@ def Attr.typ : Attr → Nat
 inductive Wit where
   | std (hashOk : Bool) (inv ver : Bytes)   -- non-empty verification script made of the modelled opcodes
   | missing                                  -- empty verification script, no deployed contract under the account
-  | opaque (f : Nat → WRes)                  -- anything else (contract-based verification): a function of the gas limit
+  | contract (f : Nat → WRes)                  -- anything else (contract-based verification): a function of the gas limit
 
 structure Signer where
   account : Nat
@@ -158,7 +158,7 @@ def attrsFee (c : Chain) (nsigners : Nat) : List Attr → Nat
 def verifyOne (c : Chain) (gas : Nat) : Wit → WRes
   | .std hashOk inv ver => verifyWitness c.base c.maxVerGas c.gorgon c.validKey c.verify hashOk gas inv ver
   | .missing => .fail
-  | .opaque f => f (min gas c.maxVerGas)
+  | .contract f => f (min gas c.maxVerGas)
 
 /-- `verifyTxWitnesses` (blockchain.go:3446-3465), not partial: every witness must verify;
 the gas limit of the next one is what the previous ones left. Returns what is left. -/
